@@ -3,6 +3,7 @@ package sim
 import (
 	"fmt"
 	"os"
+	"path/filepath"
 	"strings"
 
 	"verifharness/proto"
@@ -170,6 +171,12 @@ func SimC13(c *CheckCtx, i int, r *Rng) error {
 	for k := 0; k < n; k++ {
 		sc.Variants = append(sc.Variants, Variant{Name: fmt.Sprintf("sched:shuf:%d", k), Ops: []Op{{Kind: "run", Run: &RunOp{Args: args, Sched: schedOf("shuf", r.U64())}}}})
 	}
+	sc.Variants = append(sc.Variants, Variant{Name: "sched:asc:second-checkout", Ops: []Op{{Kind: "run", Run: &RunOp{Args: args, Sched: schedOf("asc", 0)}}}})
+	if r.P(0.25) {
+		// an entry the directory hash cannot read (an editor's lock file): loading must not care
+		pi := r.Intn(len(m.Pkgs))
+		sc.Setup = append(sc.Setup, Op{Kind: "unhashable", Path: filepath.Join(m.Pkgs[pi].Dir, ".#"+m.Pkgs[pi].Files[0].Name)})
+	}
 	// the same questions in another order: MethodsOf before any name table of the package is touched
 	sc.Variants = append(sc.Variants, Variant{Name: "sched:asc:methods-first", Ops: []Op{{Kind: "run", Run: &RunOp{Args: args, Sched: schedOf("asc", 0)}}}})
 	if r.P(0.3) {
@@ -218,7 +225,7 @@ func clashWorld(r *Rng, base string) (*ModuleSpec, []string, []proto.GenScript) 
 	cfg := DrawSpecConfig(r, []string{name}, base)
 	cfg.PNested, cfg.PStd, cfg.PPre = 0, 0, 0
 	m := &ModuleSpec{ModPath: Pick(r, modPaths), GoVer: Pick(r, goVers)}
-	seg := Pick(r, []string{"model", "types", "v1"})
+	seg := Pick(r, []string{"model", "util", "common"}) // (not a std package name: those are reserved and never handed out plain)
 	dirs := []string{"x/" + seg, "y/" + seg}
 	users := []string{"a", "b"}
 	if r.P(0.5) {
@@ -246,8 +253,15 @@ func clashWorld(r *Rng, base string) (*ModuleSpec, []string, []proto.GenScript) 
 		p := m.Pkgs[pi]
 		key := m.ImportPath(pi) + " " + p.Anchor
 		var parts []proto.Part
-		for k, j := range p.Imports {
-			parts = append(parts, proto.Part{Text: fmt.Sprintf("\nvar Clash%d_%d ", pi, k)}, proto.Part{Ref: m.ImportPath(j) + "." + m.Pkgs[j].Anchor}, proto.Part{Text: "\n"})
+		if len(p.Imports) == 2 && r.P(0.5) {
+			// one template whose two arguments are the first mention of two packages with the same last
+			// path element: which one gets the plain name is decided by their position in the text
+			parts = append(parts, proto.Part{Tmpl: fmt.Sprintf("\nvar ClashT%d_a @zz\n\nvar ClashT%d_b @aa\n", pi, pi),
+				TArgs: map[string]string{"zz": m.ImportPath(p.Imports[0]) + "." + m.Pkgs[p.Imports[0]].Anchor, "aa": m.ImportPath(p.Imports[1]) + "." + m.Pkgs[p.Imports[1]].Anchor}})
+		} else {
+			for k, j := range p.Imports {
+				parts = append(parts, proto.Part{Text: fmt.Sprintf("\nvar Clash%d_%d ", pi, k)}, proto.Part{Ref: m.ImportPath(j) + "." + m.Pkgs[j].Anchor}, proto.Part{Text: "\n"})
+			}
 		}
 		g.Rules[key] = proto.Rule{Render: parts}
 	}
